@@ -20,7 +20,12 @@ kvars == <<l, run, dead, bad, s, stats>>
 
 E == Rec[l]
 Has(r, f) == f \in DOMAIN r
-FailedOf(cl) == { cl[i][1] : i \in { j \in 1..Len(cl) : ~cl[j][2] } }
+\* Clauses listed (one JSON record {"c": name} per line) in the file named by the environment variable SKIPFILE are not judged: a
+\* property's check first validates with every clause; if a run was ended by clauses of sibling properties only, the rest of
+\* that run has not been judged for the property itself, and the driver validates again with those sibling clauses skipped.
+SkipRec == ndJsonDeserialize(IOEnv.SKIPFILE)
+SkipSet == { SkipRec[i].c : i \in 1..Len(SkipRec) }
+FailedOf(cl) == { cl[i][1] : i \in { j \in 1..Len(cl) : ~cl[j][2] } } \ SkipSet
 
 InitK(fresh, keys) == l = 1 /\ run = 0 /\ dead = FALSE /\ bad = <<>> /\ s = fresh /\ stats = [k \in keys |-> 0]
 Count(keys) == stats' = [k \in DOMAIN stats |-> stats[k] + (IF k \in keys THEN 1 ELSE 0)]
